@@ -302,6 +302,12 @@ def run(prog, check):
                  ('a country can be added without becoming the source of the default currency: a region declared after it joins the zone of an '
                   'earlier economy of the model' if not always_ else 'the default currency is not the currency of the country being added'),
                  'two federations (country + region without explicit currency) with different currencies in one model')
+    # an income exclusion registered for a sector of one economy does not reach an equally coded sector of another
+    from ._common import exclusion_scope
+    xf_, xok_, xwhy_ = exclusion_scope(prog)
+    check.saw(xf_)
+    check.ob('C18.R3', '%s::income-exclusion-is-per-sector-object' % xf_.key, xok_, xf_.where, xwhy_,
+             "two economies in one model, the household of one coded like the government of the other")
     check.floor('C18.R3', 8)
     check.floor('C18.R4', 2)
     check.floor('C18.R5', 1)
